@@ -14,6 +14,7 @@ PROP = {
     "targets": [
         {"name": "heap_enum", "mode": "enum"},
         {"name": "heap", "quick": 100000, "thorough": 3000000, "maxlen": 1400},
+        {"name": "heap_huge", "quick": 40000, "thorough": 600000, "maxlen": 64},
         {"name": "pool_c", "quick": 100000, "thorough": 3000000, "maxlen": 320},
         {"name": "pool_cxx", "quick": 100000, "thorough": 3000000, "maxlen": 320},
         {"name": "object_pool", "quick": 100000, "thorough": 3000000, "maxlen": 320},
